@@ -24,7 +24,7 @@ META = {
     "stubs": ["CphotAng helpers -> deterministic uninterpreted functions (see C08)", "atm.us_std_atm_altitude_from_pressure -> uninterpreted function alt_of_p", "astropy.io.fits.open -> recorder of the file name returning a small symbolic map"],
     "assumptions": ["REAL mode", "altitude steps zs increase along the track (valid_arrays)", "a map cell 'contains' a location when the chosen grid node lies within one grid spacing of it in both coordinates (lenient reference: any of the bracketing nodes is accepted)"],
 }
-LEDGER = {"quick": 800, "thorough": 800}
+LEDGER = {"quick": 815, "thorough": 800}
 
 
 def cloud_run(K, regime):
@@ -230,7 +230,7 @@ def jobs(tier, seed):
     K = 3 if tier == "quick" else 4
     out = [(f"c{r}", "job_cloud", {"K": K, "regime": r, "tier": tier}) for r in ("below", "above", "between")]
     out += [(f"m{k}", "job_models", {"kind": k, "tier": tier}) for k in ("none", "nocloud", "mono")]
-    out.append(("map", "job_map", {"nlat": 3 if tier == "quick" else 4, "nlon": 5 if tier == "quick" else 7, "tier": tier}))  # (as in the shipped 361x576 maps: more longitude than latitude nodes, by more than one cell)
+    out.append(("map", "job_map", {"nlat": 3 if tier == "quick" else 4, "nlon": 5 if tier == "quick" else 6, "tier": tier}))  # (as in the shipped 361x576 maps: more longitude than latitude nodes, by more than one cell)
     out.append(("months", "job_months", {"tier": tier}))
     out.append(("eas_align", "job_eas_align", {"tier": tier}))
     return out
@@ -386,6 +386,6 @@ def validate(seed, tier):
 
 MANIFEST_ENTRY = {
     "level_text": "Bounded symbolic execution of the real control skeleton of CphotAng.run with a symbolic cloud-top altitude (helpers uninterpreted, K=3/4 segments): below the first segment the outputs are term-identical to the cloud-free run (hence bit-identical under any interpretation of the arithmetic), above the penultimate segment exactly (0,0), in between equal to the cloud-free pipeline with the yield of every segment strictly below the cloud top removed; the real CloudTopHeight dispatch and closures for None/NoCloud/MonoCloud (constant in location); the real pressure-map lookup on a symbolic small map for every location on the sphere (value must be the standard-atmosphere altitude of a node bracketing degrees(lat), degrees(long) on the code's own grids); month -> file name for all 12 months.",
-    "level_note": "Includes C08's EAS.__call__ job with N=3 (the event's own latitude and longitude reach the cloud model: the five kernel inputs are aligned). REAL arithmetic; photon-yield helpers and the pressure->altitude conversion are uninterpreted functions; small symbolic map instead of the 361x576 shipped maps; lenient cell convention (any bracketing node).",
+    "level_note": "Includes C08's EAS.__call__ job with N=3 (the event's own latitude and longitude reach the cloud model: the five kernel inputs are aligned). REAL arithmetic; photon-yield helpers and the pressure->altitude conversion are uninterpreted functions; small symbolic map (3x5 quick, 4x6 thorough: more longitude than latitude nodes, like the shipped maps) instead of the 361x576 shipped maps; lenient cell convention (any bracketing node).",
     "technique": "symbolic execution of the real NumPy source + z3 qfnra-nlsat; term identity for the bit-identical clause",
 }
